@@ -41,16 +41,50 @@ theorem listKeys_spec' (keys names : List Str) :
 no `.` components). Registered keys are `abspath(file)/name`. -/
 def Normalized (k : Str) : Prop := (if isAbs k then [sep] else []) ++ joinSep (comps k) = k
 
-/-- The common path of two or more normalised keys is a string prefix of every key (so full keys are matched without the
-wildcard prefix). -/
-theorem common_isPrefix' (keys : List Str) (h2 : 2 ≤ keys.length) (hnorm : ∀ k ∈ keys, Normalized k) (k : Str) (hk : k ∈ keys) :
-    (common keys).isPrefixOf k = true := by
+/-- The common path of two or more keys (with normalised directory parts) is a string prefix of every key (so full keys are
+matched without the wildcard prefix). -/
+theorem common_isPrefix' (keys : List Str) (h2 : 2 ≤ keys.length) (hnorm : ∀ k ∈ keys, Normalized (pathDirname k)) (k : Str)
+    (hk : k ∈ keys) : (common keys).isPrefixOf k = true := by
   exact common_isPrefix_aux keys h2 hnorm k hk
 
+/-- The common path is a directory prefix of every key: the key continues with `/` after it. -/
+theorem common_dirPrefix' (keys : List Str) (h2 : 2 ≤ keys.length) (hnorm : ∀ k ∈ keys, Normalized (pathDirname k))
+    (k : Str) (hk : k ∈ keys) (hc : common keys ≠ []) (hroot : common keys ≠ [sep]) :
+    ∃ rel, k = common keys ++ sep :: rel := by
+  exact common_dirPrefix_aux keys h2 hnorm k hk hc hroot
+
+/-- `getm(…, fullkey=False)` names a key `common/rel` by `rel` — whatever separators `rel` contains. -/
+theorem retKey_relative' (keys : List Str) (k rel : Str) (hrel : k = common keys ++ sep :: rel) : retKey keys k = rel := by
+  have hk : k = (common keys ++ [sep]) ++ rel := by rw [hrel]; simp
+  unfold retKey
+  simp only
+  rw [if_pos (by rw [List.isPrefixOf_iff_prefix, hk]; exact List.prefix_append _ _)]
+  rw [hk, List.drop_left]
+
+/-- Without a common path, keys that do not start with a separator (in-memory series) keep their names. -/
+theorem retKey_no_common' (keys : List Str) (k : Str) (hc : common keys = []) (hk : isAbs k = false) : retKey keys k = k := by
+  unfold retKey
+  simp only [hc, List.nil_append]
+  rw [if_neg]
+  intro h
+  cases k with
+  | nil => simp at h
+  | cons c cs =>
+    have : sep = c := by simpa using h
+    subst this
+    simp [isAbs] at hk
+
+/-- Without a common path the relative listing is the listing itself. -/
+theorem listRelative_no_common' (cwd : Str) (keys : List Str) (hc : common keys = []) :
+    listRelative cwd keys none = keys := by
+  unfold listRelative
+  simp [hc]
+
 /-- Every registered key selects itself, and only itself, by its full key (keys without `*`/`?`, pairwise distinct; for a
-single key: its directory part must be a prefix of it, which holds for every key `dir/name`). -/
-theorem self_select_fullkey' (keys : List Str) (hn : keys.Nodup) (hnorm : ∀ k ∈ keys, Normalized k) (k : Str) (hk : k ∈ keys)
-    (hw : ∀ c ∈ k, c ≠ '*' ∧ c ≠ '?') (h1 : keys = [k] → (pathDirname k).isPrefixOf k = true) :
+single key the common path is its directory part, which is a prefix of it; for several keys their directory parts must be
+normalised). -/
+theorem self_select_fullkey' (keys : List Str) (hn : keys.Nodup) (hnorm : ∀ k ∈ keys, Normalized (pathDirname k)) (k : Str)
+    (hk : k ∈ keys) (hw : ∀ c ∈ k, c ≠ '*' ∧ c ≠ '?') :
     listKeys keys [k] = [k] ∧ getKey keys k = .ok k ∧ contains keys k = true := by
   have hpre : prefixed (common keys) k = k := by
     unfold prefixed
@@ -59,12 +93,12 @@ theorem self_select_fullkey' (keys : List Str) (hn : keys.Nodup) (hnorm : ∀ k 
     · rfl
     · exfalso
       apply hpx
-      match keys, hk, hnorm, h1 with
-      | [a], hk, _, h1 =>
+      match keys, hk, hnorm with
+      | [a], hk, _ =>
         have hak : k = a := by simpa using hk
         subst hak
-        exact h1 rfl
-      | a :: b :: r, hk, hnorm, _ =>
+        exact pathDirname_isPrefix k
+      | a :: b :: r, hk, hnorm =>
         exact common_isPrefix' (a :: b :: r) (by simp) hnorm k hk
   have hl : listKeys keys [k] = [k] := by
     rw [listKeys_spec']
